@@ -312,12 +312,22 @@ class C11Machine(_BatchBase):
                             V.append(violation('C11/error-row-stats', 'beads/' + col.split(' ', 1)[-1],
                                                'bead row %s has %s=%r' % (b['ID'], col, v)))
             # ---- samples --------------------------------------------------
+            # the single-row reference runs get their own copies of the calibration functions, taken before the batch
+            # touched them (state left inside a shared transformation function must not reach the reference)
+            try:
+                fx0 = copy.deepcopy(fx)
+            except Exception:
+                fx0 = None
+                bump(out['probes'], 'calibration_functions_not_copyable')
+
+            def fresh_fx():
+                return copy.deepcopy(fx0) if fx0 is not None else fx
             k, r = E.samples(fx, beads_t)
             out['evals'] += 1
             if k == 'exc':
                 culprit = 'unknown'
                 for s in exp['samples']:
-                    k1, r1 = E.samples(fx, beads_t, E.samples_t.loc[[s['ID']]])
+                    k1, r1 = E.samples(fresh_fx(), beads_t, E.samples_t.loc[[s['ID']]])
                     if k1 == 'exc' and type(r1) is type(r):
                         culprit = s['fault'] or 'healthy-row'
                         break
@@ -342,8 +352,8 @@ class C11Machine(_BatchBase):
                     continue
                 if s['fault']:
                     continue
-                # isolation: the same row processed alone, same calibration objects
-                k1, r1 = E.samples(fx, beads_t, E.samples_t.loc[[s['ID']]])
+                # isolation: the same row processed alone, with pristine copies of the calibration objects
+                k1, r1 = E.samples(fresh_fx(), beads_t, E.samples_t.loc[[s['ID']]])
                 out['evals'] += 1
                 if k1 == 'exc':
                     V.append(violation('C11/row-differs-from-alone', 'sample/alone-aborts',
@@ -475,7 +485,8 @@ class C11Machine(_BatchBase):
 class C10Machine(_BatchBase):
     prop = 'C10'
     level = 'exploration'
-    rule = ('each run is one generated fault-free experiment (1..3 instruments, 0..2 bead rows, 1..4 cell-sample rows; per-channel '
+    rule = ('each run is one generated experiment - three in four fault-free, one in four with documented row faults next '
+            'to the compared rows (those rows themselves are skipped) - (1..3 instruments, 0..2 bead rows, 1..4 cell-sample rows; per-channel '
             'units from {empty, Channel, RFI, a.u., au, MEF} in letter-case variants; gate fractions; integer and float data); '
             'every returned sample is compared bit-exactly with the hand composition of the documented steps using the '
             'calibration objects the real bead processing returned, every statistics column with FlowCal.stats on that sample '
@@ -492,8 +503,10 @@ class C10Machine(_BatchBase):
 
     def generate(self, rng, tier, index):
         small = tier == 'quick'
-        exp = expgen.gen_experiment(rng, faults=False, max_samples=3 if small else 4, max_beads=1 if small and rng.chance(0.7) else 2,
-                                    small=small)
+        # every fourth experiment also contains rows with documented faults: the healthy rows around them must still
+        # equal the hand composition (the faulty rows themselves are C11's business and are skipped here)
+        exp = expgen.gen_experiment(rng, faults=(index % 4 == 3), max_samples=3 if small else 4,
+                                    max_beads=1 if small and rng.chance(0.7) else 2, small=small)
         return {'exp': exp, 'stub': rng.chance(0.3), 'seed': rng.randint(0, 2 ** 31 - 1)}
 
     def execute(self, case):
@@ -526,6 +539,9 @@ class C10Machine(_BatchBase):
                 out['digest'] = log.digest()
                 return out
             for b in exp['beads']:
+                if b.get('fault') is not None:
+                    bump(out['probes'], 'faulty_rows_next_to_compared_rows')
+                    continue
                 if isinstance(bsamples[b['ID']], X.ExcelUIException):
                     V.append(violation('C10/row-error', 'beads', 'well-formed bead row %s: %s' % (b['ID'], bsamples[b['ID']])))
                 else:
@@ -543,6 +559,11 @@ class C10Machine(_BatchBase):
                         V.append(violation('C10/beads-differ-from-hand', '+'.join(df), 'bead row %s' % b['ID']))
                     if b['mef'] and fx[b['ID']] is None:
                         V.append(violation('C10/no-calibration', 'beads', 'bead row %s with MEF values gave no transformation' % b['ID']))
+            try:
+                fx0 = copy.deepcopy(fx)            # the hand composition uses copies taken before the workflow ran
+            except Exception:
+                fx0 = fx
+                bump(out['probes'], 'calibration_functions_not_copyable')
             k, r = E.samples(fx, beads_t)
             out['evals'] += 1
             if k == 'exc':
@@ -562,11 +583,14 @@ class C10Machine(_BatchBase):
                 out['digest'] = log.digest()
                 return out
             for s in exp['samples']:
+                if s.get('fault') is not None:
+                    bump(out['probes'], 'faulty_rows_next_to_compared_rows')
+                    continue
                 got = samples[s['ID']]
                 inst = insts[s['Instrument ID']]
                 uc = units_class(s['units'])
                 dt = exp['files'][s['File Path']].get('datatype', 'I')
-                mf = fx.get(s['Beads ID']) if s['Beads ID'] else None
+                mf = copy.deepcopy(fx0.get(s['Beads ID'])) if s['Beads ID'] else None
                 with warnings.catch_warnings():
                     warnings.simplefilter('ignore')
                     try:
@@ -660,7 +684,8 @@ class C10Machine(_BatchBase):
                 out['sigs'].add('%s|%s|%s' % (uc, dt, 'mef' if mf is not None and 'mef' in uc else '-'))
             out['sigs'].add('%d/%d|%s|%s' % (len(exp['beads']), len(exp['samples']),
                                              ','.join(units_class(s['units']) for s in exp['samples']),
-                                             ','.join(exp['files'][s['File Path']].get('datatype', 'I') for s in exp['samples'])))
+                                             ','.join(exp['files'].get(s['File Path'], {}).get('datatype', '-')
+                                                      for s in exp['samples'])))
         finally:
             E.close()
         out['digest'] = log.digest()
